@@ -13,7 +13,9 @@
 // that neither crash nor throw anything but GeographicErr/bad_alloc.  For the functions with output
 // arguments (readcoeffs, readarray, NearestNeighbor::Load "state unchanged if an exception is thrown") the
 // outputs are compared bitwise with their pre-call sentinels when the call throws.
-#define FAULT_ALLOC_CAP_BYTES (512u << 20)
+// 64 MiB: a NearestNeighbor file with a cyclic child pointer makes Search push nodes until memory is exhausted; with a
+// larger cap that takes more than the 60 s hang limit on a loaded machine
+#define FAULT_ALLOC_CAP_BYTES (64u << 20)
 #include "mc/ctx.hpp"
 #include "mc/fault.hpp"
 #include "models/tiny_datasets.hpp"
@@ -342,6 +344,60 @@ static std::vector<DataSet> make_sets(bool T) {
   return sets;
 }
 
+// ------------------------------------------------------------------------------------------- fault x history (Geoid)
+// Geoid is the only class that keeps reading its file after construction.  Space: interpolation {bilinear, cubic} x every
+// truncation length of the data region (and 3 lengths inside the header) applied AFTER a successful construction, after
+// t = 0 .. L-1 operations of a sequence x every operation sequence of length L <= 3 over
+//   { evaluate at q1..q4 (q1,q2 share a cell, q3,q4 share another cell; thorough: + q5, q6), CacheArea (covers the q1 cell only),
+//     CacheAll, CacheClear }.
+// Oracle: every evaluation either throws GeographicErr or returns EXACTLY (bitwise) the value a fresh object gives on the
+// intact file; cache operations either succeed or throw GeographicErr; nothing else (foreign exception, crash) ever.
+// In particular, after a throwing read the same query must not silently return a different number, and a CacheArea /
+// CacheAll that throws midway must leave an object whose later answers are still right (or throw).
+namespace geoidhist {
+static const int W = 8, H = 5;
+struct Q { double lat, lon; };
+static const Q QS[] = {{60.5, 10.5}, {60.25, 10.75}, {-60.5, 100.5}, {-60.25, 100.75}, {10.5, 200.5}, {80.0, 300.0}};
+static const char* FILE_STEM = "hist";
+// op codes: 0..nq-1 evaluate QS[k]; nq = CacheArea; nq+1 = CacheAll; nq+2 = CacheClear
+static std::string opname(int op, int nq) { if (op < nq) return "q" + std::to_string(op + 1); return op == nq ? "CacheArea" : op == nq + 1 ? "CacheAll" : "CacheClear"; }
+static double refval(bool cubic, int k, const std::string& intact) {        // fresh object on an intact private copy
+  static double tab[2][6]; static bool have[2][6] = {{false}};
+  if (!have[cubic][k]) {
+    fault::write_file(g_dir + "/histref.pgm", intact);
+    Geoid g("histref", g_dir, cubic, false);
+    tab[cubic][k] = g(QS[k].lat, QS[k].lon); have[cubic][k] = true;
+  }
+  return tab[cubic][k];
+}
+// runs one sequence; reports through rep
+static void run(bool cubic, size_t trunc_len, int t_fault, const std::vector<int>& ops, int nq, const std::string& intact, Report& rep, const std::string& key) {
+  std::vector<double> ref(nq); for (int k = 0; k < nq; ++k) ref[k] = refval(cubic, k, intact);
+  const std::string path = g_dir + "/" + FILE_STEM + ".pgm";
+  fault::write_file(path, intact);
+  Geoid g(FILE_STEM, g_dir, cubic, false);
+  mc::Fields F = {{"dataset", "geoid-history"}, {"config", cubic ? "cubic" : "bilinear"}};
+  uint64_t sig = 0;
+  for (size_t i = 0; i < ops.size(); ++i) {
+    if ((int)i == t_fault) { if (truncate(path.c_str(), (off_t)trunc_len) != 0) { rep.fail(key + "|truncate", "harness: truncate failed", {{"kind", "baseline"}}); return; } }
+    int op = ops[i]; double v = 0;
+    fault::Thrown th = fault::guarded([&] {
+      if (op < nq) v = g(QS[op].lat, QS[op].lon);
+      else if (op == nq) g.CacheArea(40, 0, 80, 50);
+      else if (op == nq + 1) g.CacheAll();
+      else g.CacheClear();
+    });
+    sig = sig * 5 + th.oc + 1;
+    if (!fault::clean(th.oc)) { mc::Fields f = F; f.push_back({"kind", "foreign-exception"}); f.push_back({"call", opname(op, nq)}); rep.fail(key + "|exc" + std::to_string(i), "step " + std::to_string(i + 1) + " " + opname(op, nq) + " threw " + th.what, f); return; }
+    if (op < nq && !th.threw()) {
+      if (!mc::same_bits(v, ref[op])) { mc::Fields f = F; f.push_back({"kind", "wrong-value-after-fault"}); f.push_back({"call", opname(op, nq)});
+        rep.fail(key + "|val" + std::to_string(i), "Geoid(" + std::string(cubic ? "cubic" : "bilinear") + "): file truncated to " + std::to_string(trunc_len) + " bytes before step " + std::to_string(t_fault + 1) + "; step " + std::to_string(i + 1) + " g(" + fmt(QS[op].lat) + ", " + fmt(QS[op].lon) + ") returned " + mc::fx(v) + " without an exception, the intact file gives " + mc::fx(ref[op]), f); return; }
+    }
+  }
+  rep.sig(sig);
+}
+}  // namespace geoidhist
+
 // ------------------------------------------------------------------------------------------- main
 int main(int argc, char** argv) {
   Ctx ctx(argc, argv);
@@ -406,7 +462,42 @@ int main(int argc, char** argv) {
     }
     ctx.count("forks", iso.forks);
   }
-  ctx.note("allocation requests above 512 MiB fail with std::bad_alloc (operator new replaced in the harness); sanitizer = clang ASan+UBSan, -fno-sanitize-recover=undefined");
+  { // ---------------- fault x history on a Geoid that stays open
+    using namespace geoidhist;
+    ctx.sub("files-geoid-history");
+    const std::string intact = tiny::geoid_image_wh(W, H);
+    const size_t hdr = intact.size() - 2 * W * H;
+    const int nq = T ? 6 : 4, nops = nq + 3;
+    std::vector<size_t> lens;
+    for (size_t l : {size_t(0), hdr / 2, hdr - 1}) lens.push_back(l);
+    for (size_t l = hdr; l < intact.size(); ++l) if (T || (l - hdr) % 2 == 0 || l + 4 >= intact.size()) lens.push_back(l);
+    // sequences with the position of the fault: (ops, t) with 0 <= t < |ops| <= 3
+    struct Sq { std::vector<int> ops; int t; };
+    std::vector<Sq> seqs;
+    for (int L = 1; L <= 3; ++L) { int n = 1; for (int i = 0; i < L; ++i) n *= nops;
+      for (int c = 0; c < n; ++c) { std::vector<int> ops(L); int x = c; for (int i = L - 1; i >= 0; --i) { ops[i] = x % nops; x /= nops; } for (int t = 0; t < L; ++t) seqs.push_back({ops, t}); } }
+    ctx.bound("files-geoid-history", std::to_string(W) + "x" + std::to_string(H) + " raster, {bilinear, cubic} x " + std::to_string(lens.size()) + " truncation lengths applied after construction x " + std::to_string(seqs.size()) +
+              " (operation sequence of length <= 3 over " + std::to_string(nq) + " query points in " + std::to_string(nq / 2) + "+ cells + CacheArea + CacheAll + CacheClear, position of the fault)");
+    fault::Isolator iso(g_dir, "hist"); iso.batch = 1024; iso.slot_bytes = 1024;
+    for (int cubic = 0; cubic < 2; ++cubic) for (size_t li = 0; li < lens.size(); ++li) {
+      if (!ctx.take()) continue;
+      auto key_of = [&](size_t i) { std::string k = std::string("geoid-history|") + (cubic ? "cubic" : "bilinear") + "|len" + std::to_string(lens[li]) + "|t" + std::to_string(seqs[i].t) + "|"; for (int op : seqs[i].ops) k += opname(op, nq) + ","; return k; };
+      iso.run(seqs.size(),
+        [&](size_t i, Report& rep) { geoidhist::run(cubic != 0, lens[li], seqs[i].t, seqs[i].ops, nq, intact, rep, key_of(i)); },
+        [&](size_t i, const Result& r) {
+          Ctx::Case cs(ctx); ctx.sig(r.oc); for (auto sg : r.sigs) ctx.sig(sg);
+          for (auto& f : r.fails) FAIL(ctx, f.key, f.msg, f.fields);
+          if (r.slow) ctx.count("slow-cases");
+          if (r.fatal()) {
+            mc::Fields fl = {{"dataset", "geoid-history"}, {"config", cubic ? "cubic" : "bilinear"}, {"kind", r.oc == fault::SANITIZER ? "sanitizer" : r.oc == fault::HANG ? "hang" : r.oc == fault::FOREIGN ? "foreign-exception" : "crash"}, {"check", r.check}, {"func", r.func}, {"where", r.where}};
+            FAIL(ctx, key_of(i) + "|fatal", "geoid history -> " + r.describe(), fl);
+          }
+          if (ctx.want_sample() && i == 777) ctx.sample(key_of(i) + " -> " + r.describe());
+        });
+    }
+    ctx.count("forks", iso.forks);
+  }
+  ctx.note("allocation requests above 64 MiB fail with std::bad_alloc (operator new replaced in the harness); sanitizer = clang ASan+UBSan, -fno-sanitize-recover=undefined");
   fault::rm_tmp_dir(g_dir);
   return ctx.finish();
 }
